@@ -278,6 +278,13 @@ macro_rules! width_checks {
                         ("toml::to_string", toml::to_string(&W { v: x }).map_err(|e| e.to_string())),
                         ("toml_edit::ser::to_string", toml_edit::ser::to_string(&W { v: x }).map_err(|e| e.to_string())),
                         ("toml::Value::try_from", toml::Value::try_from(W { v: x }).map(|t| t.as_table().map(|t| t.to_string()).unwrap_or_default()).map_err(|e| e.to_string())),
+                        // the number on its own, through the single-value serializers
+                        ("toml::ser::ValueSerializer (bare)", {
+                            let mut out = String::new();
+                            serde::Serialize::serialize(&x, toml::ser::ValueSerializer::new(&mut out)).map(|()| format!("v = {out}\n")).map_err(|e| e.to_string())
+                        }),
+                        ("toml_edit::ser::ValueSerializer (bare)", serde::Serialize::serialize(&x, toml_edit::ser::ValueSerializer::new()).map(|v| format!("v = {v}\n")).map_err(|e| e.to_string())),
+                        ("toml::Value::try_from (bare)", toml::Value::try_from(x).map(|v| format!("v = {v}\n")).map_err(|e| e.to_string())),
                     ] {
                         match (r, in_i64) {
                             (Err(_), false) => {}
